@@ -487,7 +487,20 @@ def _rebind_parse_action(interp, base, margs):
         return base
     n = len(f.node.args.args)
     params = tuple(T('sym', 'pa%d' % i) for i in range(n))
-    body = interp.termify(interp.call(f, list(params)))
+    body = None
+    if isinstance(f.node, _ast.Lambda):
+        # a lambda is one expression: kept as a pure term when possible (no
+        # forking on the tokens, which are not known yet)
+        from ..core.absint import Frame, Inexact
+        binding = {a.arg: p for a, p in zip(f.node.args.args, params)}
+        try:
+            body = interp._pure_term(
+                f.node.body, binding,
+                Frame(f, dict(f.closure or {}), len(interp.frames)))
+        except Inexact:
+            body = None
+    if body is None:
+        body = interp.termify(interp.call(f, list(params)))
     return T('parseaction', base, params, body)
 
 
@@ -529,6 +542,9 @@ def _end_to_end(ctx, keys):
               # letters outside ASCII
               'caf\u00e9', 's== caf\u00e9', '<or> \u00e9t\u00e9 <or> a',
               '<in> \u00e9', '<all-in> a\u00e9s mmx',
+              # punctuation at the end of an operand belongs to it
+              's== abc,', 'abc,', '<in> bc,', '<or> a, <or> b', 's!= abc.',
+              '<all-in> aes, mmx',
               # operands with regex metacharacters are plain text
               '<in> 4.8', '<in> a+b', '<in> (x', '<in> [a', '<in> a|b',
               's== a.c', '<or> a.c <or> x*',
@@ -545,6 +561,7 @@ def _end_to_end(ctx, keys):
               ' abc', '!abc', 'x!9y', '!b', 's=x', "['!x', 's=y']", 's',
               '-15', '-5', '4.5', '-20', 'caf\u00e9', 'caf', '0', '0.0',
               '-0.0', 'gcc-4x8', 'a+b', 'f(x)', 'abc', 'aac', 'a|b', '[a]',
+              'abc,', 'a,', "['aes,', 'mmx']",
               "['a\u00e9s', 'mmx']", '\u00e9t\u00e9')
 
     if ctx.thorough:
